@@ -34,6 +34,7 @@ pub struct World {
     sel_objs: std::sync::Mutex<HashMap<SubId, Arc<rs_store::SelectorSubscriber<St, Act, SSel, u64>>>>,
     /// (subscriber, entry) pairs of `SubSpec::on_notify_ops` that have already run
     notify_ops_done: std::sync::Mutex<std::collections::HashSet<(SubId, usize)>>,
+    mw_objs: std::sync::Mutex<HashMap<CompId, Arc<dyn Middleware<St, Act> + Send + Sync>>>,
 }
 
 impl World {
@@ -49,6 +50,7 @@ impl World {
             iters: Default::default(),
             sel_objs: Default::default(),
             notify_ops_done: Default::default(),
+            mw_objs: Default::default(),
         })
     }
     pub fn store(&self, ix: StoreIx) -> Option<Arc<TStore>> {
@@ -116,12 +118,15 @@ fn thunk_body(w: Arc<World>, e: EffSpec) -> Box<dyn FnOnce(Box<dyn Dispatcher<Ac
                 w.ctx.ev(Ev::NInv { from: from.clone(), act: *a });
                 let ok = d.dispatch(Act { id: *a }).is_ok();
                 w.ctx.ev(Ev::NRet { from, act: *a, ok });
+                // a thunk goes on working after a dispatch has returned (and keeps the
+                // dispatcher it was handed until it ends)
+                w.ctx.stall(e.stall);
             }
         }
-        drop(d);
         for (i, op) in e.ops.iter().enumerate() {
             exec_op(&w, 1000 + e.id, i as u32, op);
         }
+        drop(d);
         if e.panics {
             panic!("{}", SCRIPTED_PANIC);
         }
@@ -356,8 +361,10 @@ impl Selector<St, u64> for SSel {
 fn mk_red(w: &Arc<World>, c: CompId) -> Box<dyn Reducer<St, Act> + Send + Sync> {
     Box::new(SReducer { w: w.clone(), comp: c })
 }
+/// One instance per component id: a builder sequence that names the same middleware twice hands
+/// the *same* `Arc` to the store twice (C17: "add_* appends", also for an instance already there).
 fn mk_mw(w: &Arc<World>, c: CompId) -> Arc<dyn Middleware<St, Act> + Send + Sync> {
-    Arc::new(SMw { w: w.clone(), comp: c })
+    slock(&w.mw_objs).entry(c).or_insert_with(|| Arc::new(SMw { w: w.clone(), comp: c })).clone()
 }
 
 fn build_store(w: &Arc<World>, ix: StoreIx) -> Result<Arc<TStore>, StoreError> {
